@@ -219,3 +219,49 @@ Section ProcProofs.
     unfold processing_order. destruct items as [|x r]; [constructor|apply priority_order_sorted].
   Qed.
 End ProcProofs.
+
+(* ---------- weighted_processing_order (SRV, URI) ---------- *)
+Section WeightedProofs.
+  Variable A : Type.
+  Variable uniform : Z -> Z.
+  Variable prio : A -> Z.
+  Variable weight : A -> Z.
+
+  Lemma wpick_perm : forall l r x rest,
+    wpick A weight r l = Some (x, rest) -> Permutation l (x :: rest).
+  Proof.
+    induction l as [|a l IH]; intros r x rest; cbn [wpick]; [discriminate|].
+    destruct l as [|b t].
+    - intros E; inversion E; subst. reflexivity.
+    - destruct (sweight A weight a >? r).
+      + intros E; inversion E; subst. reflexivity.
+      + destruct (wpick A weight (r - sweight A weight a) (b :: t)) as [[y rest']|] eqn:Ep; [|discriminate].
+        intros E; inversion E; subst.
+        eapply perm_trans; [apply perm_skip, (IH _ _ _ Ep)|apply perm_swap].
+  Qed.
+
+  Lemma wextract_loop_perm : forall fuel total l,
+    Permutation l (wextract_loop A uniform weight fuel total l).
+  Proof.
+    induction fuel as [|f IH]; intros total l; destruct l as [|a [|b t]]; cbn [wextract_loop];
+      try reflexivity.
+    destruct (wpick A weight (uniform total) (a :: b :: t)) as [[x rest]|] eqn:Ep; [|reflexivity].
+    rewrite (wpick_perm _ _ _ _ Ep). constructor. apply IH.
+  Qed.
+
+  Lemma wextract_perm l : Permutation l (wextract A uniform weight l).
+  Proof. apply wextract_loop_perm. Qed.
+
+  (* whatever random.uniform returns, weighted_processing_order yields a rearrangement of the
+     records in non-decreasing priority order *)
+  Theorem weighted_order_perm items :
+    Permutation items (weighted_order A uniform prio weight items).
+  Proof. apply priority_order_perm. apply wextract_perm. Qed.
+
+  Theorem weighted_order_sorted items :
+    StronglySorted (le_prio A prio) (weighted_order A uniform prio weight items).
+  Proof. apply priority_order_sorted. apply wextract_perm. Qed.
+
+  (* with r = 0 every draw takes the first record: the members keep their order inside a
+     priority (used by the correspondence) *)
+End WeightedProofs.
